@@ -280,3 +280,28 @@ def gen_case(ch, opts, fixed=None):
         c.features.add('local_table')
     build_bytes(c)
     return c
+
+
+def version_twin_runs(versions, per_pair=6):
+    """[(tag, [case, case])]: the same small template on two master table versions that define its element differently
+    (width, scale or reference value), to be handled one after the other by one coder object, in both orders --
+    plain (the element twice) and under a marker operator (element, 224000 block with a one-bit bitmap, 224255)."""
+    out = []
+    for i, v1 in enumerate(versions):
+        for v2 in versions[i + 1:]:
+            lo, hi = min(v1, v2), max(v1, v2)
+            for e in gpool.version_changed_elements(lo, hi)[:per_pair]:
+                for order in ((v1, v2), (v2, v1)):
+                    for form in ('plain', 'marker'):
+                        cases = []
+                        for v in order:
+                            meta = frame.default_meta(4)
+                            meta.update({'master_table_version': v, 'n_subsets': 1, 'is_compressed': False})
+                            w = gpool.pool_for(v).tables.B[e].nbits
+                            if form == 'plain':
+                                cases.append(case_from_raws(meta, [e, e], subsets=[[1, (1 << w) - 2]]))
+                            else:
+                                cases.append(case_from_raws(meta, [e, 224000, 236000, 101001, 31031, 8023, 224255],
+                                                            subsets=[[1, 0, 2, (1 << w) - 2]]))
+                        out.append(('%s %06d v%d then v%d' % (form, e, order[0], order[1]), cases))
+    return out
